@@ -35,9 +35,9 @@ P["C03"] = dict(level="exploration", design="DESIGN.md 7.7", assumptions=CARDS_A
  text="Fault-free configuration: every verifier entry point of the discrete-log encoding (key share interactive and public-coin, verifiable masking, re-masking, decryption share, cut-and-choose shuffle and rotation, Groth shuffle argument in interactive, public-coin and non-interactive form, rotation argument interactive and non-interactive) is driven by its matching prover between two tasks over a fragmenting stream pair, across swarm-varied players, type bits, kappa 0..12, challenge lengths, groups and stack sizes; every session must end with the verifier returning true. The schedule dimension is degenerate (blocking reads order the two tasks); the simulation contributes that every entry point is exercised over a real transport in many configurations.",
  note="trusted: the harness calls prover and verifier with matching arguments; libgmp/libgcrypt")
 P["C04"] = dict(level="exploration", design="DESIGN.md 7.7", assumptions=CARDS_ASSUME + ["sigma-protocol, Groth and rotation arguments: soundness error <= 2^-16 for the smallest challenge length used - a false acceptance by chance would be reported as a violation; cut-and-choose: the oracle is exact (verifier coins are read from the wire or forced through the randomness seam)"],
- quick=[leg("cards","plain",5000,16,16,120), leg("cards","asan",700,10,8,240), leg("qrcards","plain",3000,16,16,120), leg("qrcards","asan",1000,10,8,240)],
- thorough=[leg("cards","plain",400000,16,128,120,1000), leg("cards","asan",20000,10,32,240,500), leg("qrcards","plain",300000,16,128,120,400), leg("qrcards","asan",40000,10,32,240,300)],
- text="Byzantine prover task: the honest prover code runs while the verifier holds a false statement - output stack with a card substituted, duplicated, dropped or re-typed, exchanged cards presented as a rotation, a non-cyclic permutation presented as a rotation, a mask that changes the type, a decryption share from a key that is not at the table, a key share multiplied by g - and every verifier must refuse. For cut-and-choose the acceptance must match the verifier's coin string exactly (accepted iff every challenge bit equals the one bit value the prover's commitments fit), and a harness prover that prepares for a guessed string is accepted for exactly that string with the verifier's coins forced through the randomness seam (kappa <= 8 quick, <= 16 thorough).",
+ quick=[leg("cards","plain",5000,16,16,120), leg("cards","asan",700,10,8,240), leg("qrcards","plain",3000,16,16,120), leg("qrcards","asan",1000,10,8,240), leg("keygen","plain",6000,16,32,60)],
+ thorough=[leg("cards","plain",400000,16,128,120,1000), leg("cards","asan",20000,10,32,240,500), leg("qrcards","plain",300000,16,128,120,400), leg("qrcards","asan",40000,10,32,240,300), leg("keygen","plain",500000,16,256,60,300)],
+ text="Byzantine prover task: the honest prover code runs while the verifier holds a false statement - output stack with a card substituted, duplicated, dropped or re-typed, exchanged cards presented as a rotation, a non-cyclic permutation presented as a rotation, a mask that changes the type, a decryption share from a key that is not at the table, a key share multiplied by g - and every verifier must refuse. For cut-and-choose the acceptance must match the verifier's coin string exactly (accepted iff every challenge bit equals the one bit value the prover's commitments fit), and a harness prover that prepares for a guessed string is accepted for exactly that string with the verifier's coins forced through the randomness seam (kappa <= 8 quick, <= 16 thorough). Key-share proofs of the key-generation protocol (keygen leg): a key with the proof of another party, with an altered challenge or response, or a key of order 2q with a verifying proof is refused by every recipient, also when the same key value is already stored there.",
  note="trusted: harness construction of false statements; the coin seam (libgcrypt random entry points wrapped at link time)")
 P["C05"] = dict(level="fault_enumeration", design="DESIGN.md 7.7", assumptions=CARDS_ASSUME + ["changes of the group or the common key as public input are not injected (the instances precompute tables from them); card components of both stacks, masked values and keys are"],
  quick=[leg("cards","plain",5000,16,16,120), leg("cards","asan",700,10,8,240), leg("qrcards","plain",3000,16,16,120), leg("qrcards","asan",1000,10,8,240)],
